@@ -44,7 +44,8 @@ Corollary setup_identical_visibilities_sv J ls li n sv :
   snd (fst (setup_ts_visibilities_identical J ls li n)) = purity_sv n sv.
 Proof.
   intros F HN Hsv. destruct (setup_identical_visibilities J ls li n HN) as (V1 & V2 & _).
-  destruct (purity_singular_values n (Fmat n F) sv Hsv) as [P1 P2].
+  assert (HF : frob2 ROps n (Fmat n F) <> 0) by (rewrite (frob2_N n F); exact HN).
+  destruct (purity_singular_values n (Fmat n F) sv Hsv HF) as (_ & P1 & P2).
   rewrite V1, V2. fold F. rewrite P1, P2. split; reflexivity.
 Qed.
 
